@@ -5,6 +5,16 @@ rules and the delivery format (nothing from /verif). The sub-agents are then sta
 import json, os, subprocess, sys
 root, wave = sys.argv[1], int(sys.argv[2])
 EMPHASIS = {
+ 13: """   * ONE of several near-identical twins diverging: the library repeats the same logic per spec version, per object type, per scale, per marking function, per store kind, per comparison
+     operator, per qualifier, per constant class - change ONE copy (preferably a rarely used one) so that it no longer agrees with its siblings,
+   * two SIMILAR THINGS SWAPPED or confused: two arguments of the same type, source and target, created and modified, first and last, min and max, key and value, the 2.0 and the 2.1 constant,
+     `and` / `or` in a compound condition whose operands are rarely both true, an index off by one in a slice,
+   * the DEFAULT value of a keyword argument or of a property changed, or a default that is now shared / evaluated at another time; an option that is honoured when given explicitly but not
+     when left at its default (or the reverse),
+   * modules a first reading skips: `stix2/environment.py`, `stix2/workbench.py`, `stix2/hashes.py`, the vocabularies, `stix2/v20/*`, `stix2/equivalence/pattern/transform/*` and `compare/*`,
+     `stix2/datastore/filters.py`, `stix2/patterns.py` constants, `stix2/pattern_visitor.py`, `stix2/custom.py`, `stix2/registry.py`, `stix2/serialization.py`,
+   * a change that only shows for content that is BOTH unusual AND arrives through the less common entry point (two rarities multiplied),
+   * an EARLY RETURN, a `continue`, or a narrowed `if` that skips the rest of a function for one class of inputs (the skipped rest being a validation, a copy, a normalisation or a bookkeeping step).""",
  12: """   * COMPENSATING or self-consistent defects: a change on a path that BOTH sides of an obvious self-check share, so that round trips, "parse what you wrote", "both stores agree" or "the flag agrees
      with a strict re-parse" still come out consistent while the absolute result is wrong against the specification / documentation (a writer and its reader changed together, a helper used by
      both implementations, a normalisation applied on the way in and on the way out),
